@@ -27,6 +27,10 @@ pub struct Scenario {
     pub build_sboms: Vec<SbomSpec>,
     pub launch_sboms: Vec<SbomSpec>,
     pub vectors: usize,
+    /// all vectors see the same directory listing order (the scenario holds an env directory
+    /// whose meaning depends on it: NAME next to NAME.override)
+    #[serde(default)]
+    pub same_dir_order: bool,
 }
 
 pub fn generate(seed: u64, tier: &str) -> Scenario {
@@ -47,6 +51,32 @@ pub fn generate(seed: u64, tier: &str) -> Scenario {
             _ => {}
         }
     }
+    // every fourth scenario: a restored env directory holding NAME and NAME.override (both
+    // spell "override NAME"; which one a reader sees last is decided by the listing order, so
+    // that order is then the same in all vectors), read and written back by the buildpack
+    let mut same_dir_order = false;
+    if r.chance(1, 4) {
+        if let Some((j, layer)) = history.ops.iter().enumerate().rev().find_map(|(j, op)| match op {
+            Op::Cached { layer, .. } | Op::Uncached { layer, .. } => Some((j, *layer)),
+            _ => None,
+        }) {
+            let f = |path: &str, data: &str| crate::e1::ops::FileSpec {
+                path: path.as_bytes().to_vec(),
+                data: data.as_bytes().to_vec(),
+                mode: 0o644,
+            };
+            let files = vec![
+                f("env/FOO", "plain"),
+                f("env/FOO.override", "suffixed"),
+                f("env.launch/web/BAR.override", "suffixed"),
+                f("env.launch/web/BAR", "plain"),
+                f("env.build/BAZ.append", "x"),
+            ];
+            history.ops.insert(j + 1, Op::EnvCycle { layer, times: 1 });
+            history.ops.insert(j + 1, Op::SpecDir { layer, files, links: Vec::new() });
+            same_dir_order = true;
+        }
+    }
     let sb = |r: &mut Rng| -> Vec<SbomSpec> {
         (0..r.usize(3))
             .map(|_| SbomSpec {
@@ -63,6 +93,7 @@ pub fn generate(seed: u64, tier: &str) -> Scenario {
         build_sboms: sb(&mut r),
         launch_sboms: sb(&mut r),
         vectors: if tier == "thorough" { 4 } else { 3 },
+        same_dir_order,
     }
 }
 
@@ -146,11 +177,12 @@ fn run_vector(s: &Scenario, base: &Path, v: usize, seed: u64) -> Result<VectorRu
         ("CNB_TARGET_DISTRO_VERSION".to_string(), "24.04".to_string()),
     ];
     let vseed = splitmix64(seed ^ (v as u64 + 1).wrapping_mul(0x9E37_79B9));
+    let rdseed = if s.same_dir_order { splitmix64(seed ^ 0xd12) | 1 } else { vseed | 1 };
     let plan_for = |prog: &str| {
         format!(
             "prog={prog};prefix={};mode=count;rdseed={};hashkey={};clockoff={}",
             root.display(),
-            vseed | 1,
+            rdseed,
             vseed.rotate_left(17),
             (v as i64) * 86_400 * 400 + 3
         )
